@@ -1,6 +1,7 @@
 //! pdbverif: drives the real parity-db and emits protocol traces for the Lean model driver,
 //! plus independent oracle checks.  One sub-command per model slice.
 mod c08;
+mod c16;
 mod c19;
 mod p1;
 mod util;
@@ -18,6 +19,7 @@ fn dispatch(cmd: &str) -> Option<RunFn> {
 		"p1" => p1::run,
 		"c19" => c19::run,
 		"c08" => c08::run,
+		"c16" => c16::run,
 		_ => return None,
 	})
 }
